@@ -13,16 +13,16 @@ def plan(tier):
                 guards = [g * len(p) for p in progs] if g else None
                 name = 'safe_%s%s' % ('_'.join(progs), '_guards' if g else '')
                 # three-thread programs: the first schedule choice is a cube (three queries in parallel instead of one long one)
-                for t0 in (range(n) if n == 3 else (None,)):
+                for t0 in (None,):   # (splitting the three-thread programs by their first schedule choice was tried: 2.5x the total solver time, no gain in wall time)
                     qs.append(ResQuery(name + ('' if t0 is None else '_first%d' % t0), progs, guards=guards, cbmc_defs=['VF_SPURIOUS=2'], K=K, timeout=1500 if tier == 'quick' else 3000, prefix=None if t0 is None else [t0],
                                        desc={'threads': list(progs), 'api': 'ReadLock/WriteLock guards' if g else 'raw lock*/unlock* calls', 'first_scheduled_thread': t0,
                                              'symbolic': 'the schedule (%d thread choices) and up to 2 spurious wake-ups' % K}))
     # the slow-waker scenario of the property text: W; two readers queue; a second write request queues; one reader is slow to wake up
     if tier == 'quick':
-        K = 26   # quick: every schedule PREFIX of 26 steps (no spurious wake-ups needed for this scenario); completion within the bound: thorough tier
-        for t0, t1 in itertools.product(range(3), repeat=2):
-            qs.append(ResQuery('safe_slow_waker_WW_R_R_first%d%d' % (t0, t1), ('WW', 'R', 'R'), K=K, prefix=[t0, t1], timeout=2400, expect_reach=[],
-                               desc={'threads': ['WW', 'R', 'R'], 'api': 'raw', 'first_scheduled_threads': [t0, t1], 'symbolic': 'the remaining %d schedule choices' % (K - 2),
+        K = 24   # quick: every schedule PREFIX of 24 steps (no spurious wake-ups needed for this scenario); completion within the bound: thorough tier
+        for t0 in range(3):
+            qs.append(ResQuery('safe_slow_waker_WW_R_R_first%d' % t0, ('WW', 'R', 'R'), K=K, prefix=[t0], timeout=2400, expect_reach=[],
+                               desc={'threads': ['WW', 'R', 'R'], 'api': 'raw', 'first_scheduled_thread': t0, 'symbolic': 'the remaining %d schedule choices' % (K - 1),
                                      'note': 'four lock/unlock pairs: admitted reader slow to wake while its batch sibling has finished (prefix exploration)'}))
     else:
         K = 34
